@@ -1361,6 +1361,23 @@ namespace hgraph
             }
             storage.resume_candidate_plus_one = 0;
             storage.evaluation_positions.clear();
+            if (storage.has_future_combiner_schedule)
+            {
+                // This node has ONE schedule slot for all its combiners. A combiner's
+                // same-cycle publication notifies its (idle) parent combiner, which
+                // pushes this node back to the current time and thereby replaces a
+                // future wake-up pulled up from a combiner visited earlier in the loop.
+                // Re-arm from the earliest pending combiner wake-up once the pass is
+                // complete.
+                DateTime earliest = MAX_DT;
+                for (const auto *entry : storage.combiners)
+                {
+                    if (entry == nullptr || !entry->graph.has_value()) { continue; }
+                    const DateTime next = entry->graph.view().next_scheduled_time();
+                    if (next != MAX_DT && next > evaluation_time && next < earliest) { earliest = next; }
+                }
+                if (earliest != MAX_DT) { view.graph().schedule_node(view.node_index(), earliest); }
+            }
             finish_reduce_publication(storage, evaluation_time);
             return true;
         }
